@@ -177,11 +177,10 @@ func checkReadLoopProgress(c *Ctx, p *core.Prog) {
 		return
 	}
 	var read ssa.CallInstruction
+	if wr := windowRead(fn); wr != nil {
+		read = wr
+	}
 	for _, call := range core.CallsIn(fn) {
-		switch core.StaticCalleeName(call.Common()) {
-		case "io.ReadFull", "io.ReadAtLeast":
-			read = call
-		}
 		if call.Common().IsInvoke() && call.Common().Method.Name() == "Read" {
 			read = call
 		}
